@@ -256,6 +256,10 @@ def r7_dequeue(tree, rep, rule="C09.R7"):
 def run(tree, rep, tier):
     from .. import round9 as _r9
     _r9.handlers_tolerate_replay(tree, rep, "C09.R9")
+    _r9.forwarded_in_same_turn(tree, rep, "C09.R11", "src/wormhole/_rendezvous.py",
+                               (("WSClient", "onOpen", "self._RC.ws_open"), ("WSClient", "onMessage", "self._RC.ws_message"), ("WSClient", "onClose", "self._RC.ws_close")),
+                               "a connection that opens and closes within one turn is seen as close-then-open: ws_close skips lost(), the late ws_open "
+                               "moves the machines into their connected halves on a dead socket and the next real connection is a NoTransition")
     from ..effects import writer_table as _wt
     _wt(tree, rep, "C09.R10", "RendezvousConnector", "_ws", {("__attrs_post_init__", "assign"), ("ws_open", "assign"), ("ws_close", "assign")},
         "ws_close decides from self._ws whether the machines must hear lost(); a further place that clears (or sets) it - a forced reconnect, an "
@@ -341,3 +345,5 @@ MUTANTS.append(Mutant("close-omits-mailbox", RDV, "        self._tx(\"close\", m
 
 MUTANTS.append(Mutant("forced-reconnect-clears-ws", "src/wormhole/_rendezvous.py", "    def _stopped(self, res):\n", "    def reconnect(self):\n        if self._ws:\n            ws, self._ws = self._ws, None\n            ws.dropConnection(abort=True)\n\n    def _stopped(self, res):\n", "C09.R10", "seed C09-18"))
 MUTANTS.append(Mutant("echo-timing-pop", "src/wormhole/_rendezvous.py", "        body = hexstr_to_bytes(msg[\"body\"])  # bytes\n", "        body = hexstr_to_bytes(msg[\"body\"])  # bytes\n        if side == self._side:\n            self._sent_at.pop(phase)\n", "C09.R9", "draft of seed C09-18"))
+
+MUTANTS.append(Mutant("onopen-deferred-a-turn", "src/wormhole/_rendezvous.py", "        self._RC.ws_open(self)\n", "        self._RC._reactor.callLater(0, self._RC.ws_open, self)\n", "C09.R11", "seed C09-20"))
